@@ -164,7 +164,12 @@ func (t Time) JS() native.JS {
 
 // JSON returns a time in a format suitable for use in JSON.
 func (t Time) JSON() native.JSON {
-	return native.JSON(`"` + t.t.Format(time.RFC3339) + `"`)
+	tt := t.t
+	if _, offset := tt.Zone(); offset%60 != 0 {
+		// The offset of an RFC 3339 time cannot have seconds.
+		tt = tt.UTC()
+	}
+	return native.JSON(`"` + tt.Format(time.RFC3339) + `"`)
 }
 
 // Month returns the month of the year specified by t, in the range [1, 12]
